@@ -21,8 +21,9 @@
  *   E                           end of the history
  *
  * The histories are replayed in a forked worker, so that an abort of the code under test (xbt_assert, the explicit
- * error of the BMF solver) or a solver that does not terminate (alarm, LMM_DRIVER_CHILD_TIMEOUT seconds per (history,
- * kind), default 10: sig 14) is reported as a line {"e":"abort"} and does not stop the batch (a new worker goes on).
+ * error of the BMF solver) or a solver that does not terminate (LMM_DRIVER_CHILD_TIMEOUT seconds of CPU time per
+ * (history, kind), default 2: sig 24 = SIGXCPU) is reported as a line {"e":"abort"} and does not stop the batch (a new
+ * worker goes on).
  *
  * output lines:
  *   {"e":"hdr","scale":100000,"prec":<sg_precision_workamount * 1e9>,"seam":0|1}
@@ -50,6 +51,7 @@
 #include <sstream>
 #include <string>
 #include <sys/prctl.h>
+#include <sys/resource.h>
 #include <sys/wait.h>
 #include <unistd.h>
 #include <vector>
@@ -309,7 +311,7 @@ int main(int argc, char** argv)
   if (kinds.empty())
     kinds = {"mmsel", "mmfull", "bmf", "fb"};
   auto hs = read_histories(argv[1]);
-  unsigned child_timeout = 10;
+  unsigned child_timeout = 2;
   if (const char* e = getenv("LMM_DRIVER_CHILD_TIMEOUT"))
     child_timeout = static_cast<unsigned>(atoi(e));
 #ifdef LMM_DRIVER_SEAM
@@ -345,7 +347,15 @@ int main(int argc, char** argv)
       for (size_t p = pos; p < npairs; p++) {
         const History& h     = hs[p / kinds.size()];
         const std::string& k = kinds[p % kinds.size()];
-        alarm(child_timeout); /* a solver that does not terminate: the worker dies with SIGALRM (14) */
+        /* a solver that does not terminate: the worker dies with SIGXCPU (24) after child_timeout seconds of CPU time
+         * for this pair (CPU time, so that a loaded machine does not look like a hang); wall-clock backstop: SIGALRM */
+        struct rusage ru;
+        getrusage(RUSAGE_SELF, &ru);
+        struct rlimit rl;
+        rl.rlim_cur = static_cast<rlim_t>(ru.ru_utime.tv_sec + ru.ru_stime.tv_sec + 1 + child_timeout);
+        rl.rlim_max = RLIM_INFINITY;
+        setrlimit(RLIMIT_CPU, &rl);
+        alarm(60 * child_timeout);
         {
           Replayer r(k);
           for (size_t i = 0; i < h.ops.size(); i++) {
